@@ -185,7 +185,12 @@ def main(argv=None):
                                          'seed': seed, 'tier': tier})
                 if o2.get('status') == 'reproduced':
                     outcome = o2
-        elif ob['result'] == 'unknown':
+        elif ob['result'] in ('unknown', 'candidate-finite-scope'):
+            if ob.get('witness'):
+                outcome = native(replay_mod, {'mode': 'replay', 'property': pid,
+                                              'obligation': ob, 'seed': seed})
+                if outcome.get('status') == 'reproduced':
+                    return outcome
             outcome = native(replay_mod, {'mode': 'search', 'property': pid, 'obligation': ob,
                                           'seed': seed, 'tier': tier})
         return outcome
